@@ -12,4 +12,4 @@ for f in $wt/SMALL/s*.diff; do
   { echo "# property: $prop"; echo "# expect: "; echo "# origin: independent sub-agent asked for small slips breaking $prop";
     jq -r --arg f "$n.diff" '.[] | select(.file==$f) | "# clause: " + (.clause|gsub("\n";" ")) + "\n# manifests: " + (.manifests|gsub("\n";" "))' $wt/SMALL/index.json 2>/dev/null; cat $f; } > $out
 done
-SELFTEST_JOBS=${SELFTEST_JOBS:-3} selftest/run.py small-$p- 2>&1 | tail -12 | cut -c1-400
+SELFTEST_JOBS=${SELFTEST_JOBS:-4} selftest/run.py small-$p- 2>&1 | grep -E "^(PASS|FAIL|[0-9]+ variants)" | cut -c1-150
